@@ -27,6 +27,7 @@ C09Nas(e) ==
    ELSE LET m == e.abs o == e.obs IN
         IF o.err THEN No("C09: the TS 24.501 encoding of " \o m.name \o " is rejected by the library")
         ELSE IF ~SameAbs(o.abs, m) THEN No("C09: " \o m.name \o " built per TS 24.501 decodes differently: " \o Which(o.abs, m))
+        ELSE IF ~o.reuseAbs THEN No("C09: " \o m.name \o " decodes differently in a Message object that has decoded other messages before (something of an earlier message stays behind)")
         ELSE Ok
 C08Nas(e) ==
    IF e.kind = "unknown" THEN (IF e.obs.err /\ ~e.obs.panic THEN Ok ELSE No("C08: an unknown message type was not reported as an error"))
@@ -35,6 +36,7 @@ C08Nas(e) ==
         ELSE IF ~o.abs.lenOK THEN No("C08: a length field of the decoded " \o m.name \o " disagrees with its contents")
         ELSE IF o.reErr \/ o.re # e.canon THEN No("C08: re-encoding the decoded " \o m.name \o " does not reproduce the octets: " \o Str(o.re) \o " instead of " \o Str(e.canon))
         ELSE IF ~o.stable THEN No("C08: decode(encode(m)) differs from m for " \o m.name)
+        ELSE IF ~o.reuseRe THEN No("C08: " \o m.name \o " decoded into a Message object that has decoded other messages before is re-encoded to other octets")
         ELSE IF Len(e.perm) = 0 THEN Ok
         ELSE LET p == e.permObs IN
              IF p.err THEN No("C08: " \o m.name \o " with optional IEs in another order is rejected")
